@@ -48,6 +48,12 @@ def random_node(rng: random.Random, depth: int, maxdepth: int, no_time: bool = F
             if not (no_time and kind == "time"):
                 break
         return ("s", code, vendor, rng.choice(FLAGS), kind, G.random_value(kind, rng))
+    if rng.random() < 0.35:
+        # a known code under a vendor id for which the dictionary has no entry: still a generic AVP
+        code, v0, _ = rng.choice(sc)
+        vendor = rng.choice([0, 99999, 10415, 424242])
+        if vendor != v0 and L.dict_lookup(code, vendor) is None:
+            return ("r", code, vendor, rng.choice(FLAGS), rng.randbytes(rng.randrange(0, 13)))
     code = rng.randrange(17000000, 17000040)
     vendor = rng.choice([0, 0, 424242])
     return ("r", code, vendor, rng.choice(FLAGS), rng.randbytes(rng.randrange(0, 13)))
